@@ -1,6 +1,6 @@
 """C05 - QuantileLinearRegression fits, and scores with, the pinball loss of its quantile."""
 from vf import loader
-from vf.core import Clause, Outcome, Violation, require, np_scalars, with_sk, round_trip
+from vf.core import Clause, Outcome, Violation, require, np_scalars, with_sk, round_trip, build_via
 
 import numpy as np
 from hypothesis import strategies as st
@@ -80,7 +80,8 @@ def check_fit(case):
     if np.linalg.matrix_rank(np.hstack([X, np.ones((n, 1))])) < d + 1:
         return Outcome(["rank-deficient-skipped"], False)
     X0, y0, w0 = X.copy(), y.copy(), None if w is None else w.copy()
-    m = _Q(delta=_delta(case), **np_scalars(dict(quantile=q, max_iter=case["max_iter"], fit_intercept=case["fit_intercept"], positive=case["positive"]), case.get("np_params", False)))
+    m = build_via(_Q, dict(delta=_delta(case), **np_scalars(dict(quantile=q, max_iter=case["max_iter"], fit_intercept=case["fit_intercept"], positive=case["positive"]), case.get("np_params", False))),
+                  case.get("via_set_params"))
     facts["np_params"] = bool(case.get("np_params", False))
     facts["yscale"] = case.get("yscale", 1.0)
     how = case.get("via_copy")
@@ -129,6 +130,7 @@ def check_fit(case):
     labels.append("yscale=%g" % case.get("yscale", 1.0))
     labels.append("targets:" + case.get("ydtype", "float64"))
     labels.append("via-copy:" + ("-".join(how) if how else "none"))
+    labels.append("configured-by-set_params" if case.get("via_set_params") else "configured-by-constructor")
     return Outcome(labels, nt)
 
 
@@ -139,7 +141,7 @@ def check_score(case):
     facts = _facts(case)
     if np.linalg.matrix_rank(np.hstack([X, np.ones((n, 1))])) < d + 1:
         return Outcome(["rank-deficient-skipped"], False)
-    m = _Q(**np_scalars(dict(quantile=q, max_iter=10, fit_intercept=case["fit_intercept"], positive=case["positive"]), case.get("np_params", False))).fit(X, y)
+    m = build_via(_Q, np_scalars(dict(quantile=q, max_iter=10, fit_intercept=case["fit_intercept"], positive=case["positive"]), case.get("np_params", False)), case.get("via_set_params")).fit(X, y)
     how = case.get("via_copy")
     facts["via_copy"] = how or "none"
     if how:
@@ -244,6 +246,7 @@ def _cases(draw, tier="quick", weighted=None, for_score=False):
         case["shifts"] = [draw(st.integers(-40, 40)) / 8.0 for _ in range(4)]
     if weighted:
         case["max_iter"] = draw(st.sampled_from([1, 2, 5, 10, 50]))
+    case["via_set_params"] = draw(st.sampled_from([False, False, True]))     # built with the defaults, then configured with set_params
     if not weighted:
         # one case in three goes through a copy: configured then persisted before fit, or fitted, copied and the copy trained again
         kind = draw(st.sampled_from([None, None, "before", "refit"]))
